@@ -53,6 +53,17 @@ def rebuild_case(draw, tier, prepopulate=False, partial_decoys=False):
                     # the intact copy may be missing altogether: only the decoy carries the name (C14 must hold then, too)
                     e["real_absent"] = draw(st.sampled_from([True] + [False] * 3))
             files.append(e)
+        if prepopulate and not t["single"] and len(t["files"]) >= 2 and draw(st.sampled_from([True] + [False] * 7)):
+            # one base name recorded with two different lengths in the same run, while the search directories hold an intact copy
+            # of only one of them (anything remembered per *name* instead of per name and length goes wrong here)
+            a, b = t["files"][0], t["files"][1]
+            b["path"] = ["twin-dir", a["path"][-1]]
+            if b["size"] == a["size"]:
+                b["size"] = a["size"] + 1 + draw(st.integers(0, 3))
+            if a["size"] > 0:
+                files[0]["decoy"] = files[0]["decoy"] or draw(placement(nsearch))
+                files[0].setdefault("decoy_kind", "all")
+                files[0]["real_absent"] = True
         torrents.append({"tree": t, "P": P, "creator": creator, "files": files, "align": align})
     unrelated = draw(st.lists(st.tuples(placement(nsearch), trees.name_component(), st.integers(0, 3000)), max_size=3))
     case = {"torrents": torrents, "nsearch": nsearch,
